@@ -86,6 +86,9 @@ def suspExplained (func : String) (x y : Nat) (side : Nat) : Bool :=
     | "_dispatch_lane_suspend_slow" => [(.sRmw, .suspend)]
     | "_dispatch_lane_resume" => [(.idle, .resume)]
     | "_dispatch_lane_resume_slow" => [(.rRmw, .resume)]
+    -- a property setter gives its own temporary suspension back: a resume (with the inline count at 0 it has to go through the
+    -- side count like any resume; a bare subtraction there wraps the inline field - F23)
+    | "_dispatch_barrier_trysync_or_async_f_complete" => [(.idle, .resume)]
     | _ => []
   pcs.any fun (pc, op) =>
     (SuspendP.step { c := c, sbit := sb, side := side, lock := some 1, logical := c + side } 1 pc op).any fun r =>
@@ -155,7 +158,7 @@ structure Stats where
 
 def unmodelledFuncs : List String :=
   ["_dispatch_lane_suspend", "_dispatch_lane_resume", "_dispatch_lane_suspend_slow", "_dispatch_lane_resume_slow",
-   "_dispatch_queue_invoke_finish"]
+   "_dispatch_queue_invoke_finish", "_dispatch_barrier_trysync_or_async_f_complete"]
 
 def main (args : List String) : IO UInt32 := do
   let mut st : Stats := {}
